@@ -494,6 +494,7 @@ func init() {
 		Explanation: "Decided (the structural part): R1 collection routing: Globals.CollectNode sends import declarations to Imports, type/var/const declarations, function and method declarations (macros excluded by the receiver guard) and other declarations to Declarations, statements and expressions to Statements, `a := b` to a `var a = b` declaration, each under the option that governs it (OptCollectDeclarations / OptCollectStatements) and each appending the node itself; no route sends a form anywhere else; CollectAst visits every element of a list form; " +
 			"R2 writer: Output.WriteDeclsToStream emits the package clause from its package argument, then one loop each over imports, declarations and statements that prints every element and does nothing else, in that order, the statements inside func init() { }; " +
 			"R3 mode: under OptMacroExpandOnly Interp.CompileAst returns before Comp.Compile (nothing is compiled or run); the form handed to the collector is the result of Comp.Parse, which returns the result of MacroExpandCodewalk (so the file holds macro-expanded code); R4 every list the collector appends to (Imports, Declarations, Statements: derived from CollectNode) is emptied before a file is evaluated by the function that writes the output file. " +
+			"X8m both interpreters suspend the same three options (MacroExpandOnly, CollectDeclarations, CollectStatements) for a forced evaluation. " +
 			"Not decided: that the written file compiles and behaves like the source (depends on the printer, C25, and on the Go toolchain).",
 		Assumptions: []string{"the forked printer prints each collected node as valid Go (C25, not decided here)"},
 		Rules: []func(*Ctx){func(c *Ctx) {
@@ -506,6 +507,7 @@ func init() {
 		}},
 		Technique: "AST/type-resolved custom analysis: routing table of a type switch against an expectation table, emission-order and loop-shape check of the writer, must-return-before and def-use checks on the mode entry points",
 		Mutants: []Mutant{
+			{Name: "forced-evaluation-still-collects-statements", File: "fast/repl.go", Old: "const todisable = base.OptMacroExpandOnly | base.OptCollectDeclarations | base.OptCollectStatements", New: "const todisable = base.OptMacroExpandOnly | base.OptCollectDeclarations"},
 			{Name: "imports-collected-as-declarations", File: "base/global.go", Old: "g.Imports = append(g.Imports, node)", New: "g.Declarations = append(g.Declarations, node)", Canary: true},
 			{Name: "const-declarations-not-collected", File: "base/global.go", Old: "case token.TYPE, token.VAR, token.CONST:\n\t\t\t\tg.Declarations", New: "case token.CONST:\n\t\t\tcase token.TYPE, token.VAR:\n\t\t\t\tg.Declarations"},
 			{Name: "statements-under-declaration-flag", File: "base/global.go", Old: "\tcase ast.Stmt:\n\t\tif collectStmt {", New: "\tcase ast.Stmt:\n\t\tif collectDecl {"},
